@@ -53,6 +53,7 @@ typedef struct {
 static fibre_t fibY, fibS, fibP, fibQ;
 static fibre_eventq_t evH;
 static event_t evbuf[4];
+static int ev_slots = 4; /* the long runs also use a 3-slot queue: a depth that does not divide 256 */
 static fibre_t *fibp[NFIB];
 
 static uint32_t Tv;           /* virtual time */
@@ -74,7 +75,7 @@ static uint32_t sleeper_due;
 static int s_rounds_left;
 
 /* event monitor */
-#define MAXEV 128
+#define MAXEV 1024
 static struct {
 	uint32_t id;
 	uint64_t inv, ret;
@@ -652,10 +653,10 @@ static void setup(const scenario_t *sc)
 	last_idle_ev = 0;
 	static unsigned setup_no;
 	if (++setup_no & 1) {
-		fibre_eventq_init(&evH, body_H, evbuf, sizeof(evbuf), sizeof(evbuf[0]));
+		fibre_eventq_init(&evH, body_H, evbuf, (size_t)ev_slots * sizeof(evbuf[0]), sizeof(evbuf[0]));
 	} else {
 		/* the static initialiser must describe the same fibre + event queue */
-		fibre_eventq_t tmp = FIBRE_EVENTQ_VAR_INIT(body_H, evbuf, sizeof(evbuf), sizeof(evbuf[0]));
+		fibre_eventq_t tmp = FIBRE_EVENTQ_VAR_INIT(body_H, evbuf, (size_t)ev_slots * sizeof(evbuf[0]), sizeof(evbuf[0]));
 		memset(&evH, 0x5a, sizeof(evH));
 		memcpy(&evH, &tmp, sizeof(evH));
 	}
@@ -895,8 +896,54 @@ static void sweep(bool nested)
 		 (unsigned)NSCEN);
 }
 
+/* several hundred events through a 3- and a 4-slot event queue (any 8-bit index or ticket wraps with events pending) */
+static void long_runs(void)
+{
+	const void *w = shim_watched();
+	for (int slots = 3; slots <= 4; slots++) {
+		ev_slots = slots;
+		shim_reset();
+		shim_watch(w);
+		snprintf(scen, sizeof(scen), "long run: 600 events through a %d-slot event queue, one or two per pass from main context and interrupts", slots);
+		char key[64];
+		snprintf(key, sizeof(key), "long:slots=%d", slots);
+		vh_case_key(key);
+		vh_case_budget(600);
+		vh_case_desc("%s", scen);
+		vh_case_replay("--extra %s", vh_opt.extra);
+		shim_enable(false);
+		setup(&scenarios[1]); /* handler only */
+		shim_set_isr(isr, NULL);
+		shim_random_isr(0, 300, 100000, 1, 1, 12345 + (uint64_t)slots); /* id 1: one event */
+		shim_enable(true);
+		for (int i = 0; i < 450 && !failed; i++) {
+			main_event();
+			if (i % 3 == 0)
+				main_event();
+			do_pass();
+			do_pass();
+			if (evlog.n > VH_TEXT - 300)
+				vh_sb_reset(&evlog);
+		}
+		shim_enable(false);
+		for (int k = 0; k < 30 && !failed; k++)
+			do_pass();
+		for (int i = 0; i < nevs && !failed && !ev_overflow; i++)
+			if (evs[i].accepted && evs[i].received != 1)
+				viol("event", evs[i].received ? "event-received-twice" : "event-lost",
+				     "event %u of the long run: send returned true, received %d times, scheduler idle", evs[i].id, evs[i].received);
+		vh_evaluations++;
+		VH_COUNT("long_event_runs");
+		VH_COUNT_N("long_run_events", nevs);
+		vh_distinct(vh_mix(0x10e6, (uint64_t)slots));
+	}
+	ev_slots = 4;
+}
+
 static void random_runs(void)
 {
+	if (vh_opt.proc == 0 && vh_opt.only_case < 0)
+		long_runs();
 	long long n = vh_opt.cases ? vh_opt.cases : (vh_opt.thorough ? 8000000 : 30000);
 	const void *w = shim_watched();
 	for (long long c = vh_opt.proc; c < n && vh_nviol < 8; c += vh_opt.nproc) {
